@@ -53,7 +53,8 @@ theorem never_empty (bals outs : List Int) (S x : Int)
   · omega
   · omega
 
-/-- the pool after `Pool.ExitPool` keeps every reserve positive and a positive share supply. -/
+/-- the pool after `Pool.ExitPool` keeps every reserve positive and a positive share supply, and the
+book follows the payout exactly. -/
 theorem exit_leaves_pool (bals outs newBals : List Int) (S x newS : Int)
     (hb : ∀ b ∈ bals, 0 < b)
     (h : exitPool bals S x = .ok (outs, newBals, newS)) :
@@ -62,24 +63,31 @@ theorem exit_leaves_pool (bals outs newBals : List Int) (S x newS : Int)
       newBals[i] = bals[i] - outs[i] ∧ 0 < newBals[i] := by
   unfold exitPool at h
   obtain ⟨outs', ho, h⟩ := bind_ok h
+  obtain ⟨nb, hnb, h⟩ := bind_ok h
   obtain ⟨hx, hg⟩ := never_empty bals outs' S x hb ho
-  simp only at h
+  obtain ⟨_, _, hol, _⟩ := calcExit_ok ho
   split at h
   · cases h
   · have hres := Except.ok.inj h
     have e1 : outs' = outs := congrArg Prod.fst hres
-    have e2 : List.zipWith (fun b o => if b - o > 0 then b - o else b) bals outs' = newBals := congrArg (fun t => t.2.1) hres
+    have e2 : nb = newBals := congrArg (fun t => t.2.1) hres
     have e3 : S - x = newS := congrArg (fun t => t.2.2) hres
-    subst e1
+    subst e1 e2
     refine ⟨e3.symm, by omega, ?_⟩
     intro i h1 h2 h3
     obtain ⟨_, hlt⟩ := hg i h1 h2
-    have : newBals[i] = if bals[i] - outs'[i] > 0 then bals[i] - outs'[i] else bals[i] := by
-      simp [← e2]
-    rw [this]
-    have hpos : bals[i] - outs'[i] > 0 := by omega
-    rw [if_pos hpos]
-    exact ⟨rfl, hpos⟩
+    have hu := (mapM2_ok hnb (by omega)).2 i h1 h2 h3
+    unfold exitUpdateOne at hu
+    split at hu
+    · rename_i hz
+      have := (Except.ok.inj hu).symm
+      rw [this, hz]; exact ⟨by omega, hb _ (List.getElem_mem h1)⟩
+    · split at hu
+      · cases hu
+      · split at hu
+        · cases hu
+        · have := (Except.ok.inj hu).symm
+          rw [this]; exact ⟨rfl, by omega⟩
 
 /-- the keeper's guards: an exit only runs for `0 < x < S`. -/
 theorem keeper_guards (bals : List Int) (S x : Int) (r : List Int × List Int × Int)
@@ -116,7 +124,7 @@ theorem round_trip (bals deps joined newBals outs nb2 : List Int) (S shares newS
   have hsh : 0 ≤ sh := by rw [esh]; exact Int.tdiv_nonneg (Int.mul_nonneg hmin (by omega)) (Int.le_of_lt P_pos)
   unfold exitPool at he
   obtain ⟨outs', ho, he⟩ := bind_ok he
-  simp only at he
+  obtain ⟨nbx, _, he⟩ := bind_ok he
   split at he
   · cases he
   · have e5 : outs' = outs := congrArg Prod.fst (Except.ok.inj he)
